@@ -17,10 +17,11 @@ import (
 func init() {
 	core.Register(core.Check{ID: "C18", Level: "exploration", Run: func(c *core.Ctx) {
 		again := vrfFirstUse(c, "C18")
+		waitArch := background(func() { arch386Pass(c, "C18") })
 		runC18(c)
 		historyPass(c, "C18")
 		reentrancyPass(c, "C18")
-		arch386Pass(c, "C18")
+		waitArch()
 		again()
 	}})
 }
